@@ -617,6 +617,15 @@ def rules(ck, P):
                         src = ir.place_str(a)
                         ck.check(wire_tokens(src.split(".")[-1]) == wire_tokens(pn), "R-FLAG-WIRE", uq + "|new|" + pn, "parameter %s receives option %s" % (pn, src),
                                  "parameter %s receives option %s (crossed flags)" % (pn, src), ir.loc(n))
+    # completeness: a tool that starts from new_default() sets BOTH transform flags from its options before the parameters reach new_from_reader
+    for uq in users:
+        b = P.fn(uq)
+        nd = [y for y in ir.walk_nodes(b["body"]) if y.get("k") == "call" and (y.get("q") or "").endswith("TilesConverterParameters::new_default")]
+        if not nd:
+            continue
+        setf = {n["l"]["name"] for n in ir.walk_nodes(b["body"]) if n.get("k") == "assign" and n["l"].get("k") == "field" and "TilesConverterParameters" in n["l"]["e"].get("t", "")}
+        ck.check({"flip_y", "swap_xy"} <= setf, "R-FLAG-WIRE", uq + "|both-flags", "parameters built from new_default() get flip_y and swap_xy from the command line",
+                 "parameters built from new_default() only get %s from the command line: the other transform flag is ignored" % sorted(setf), ir.loc(b))
     if newp:
         # constructor stores each parameter in the same-named field
         for n in ir.walk_nodes(newp[0]["body"]):
